@@ -16,9 +16,18 @@ Inductive reach :=
 | Err400                   (* 400: "i'm not leader" *)
 | Garbage200.              (* 200 with a body that is not the expected JSON *)
 
+(* etcd Range with an explicit Revision: the field is overloaded (a pinned read revision for get/list; ignored by
+   count-only, which counts at the node's read revision; 1888 with a range_end selects the partition list) *)
+Inductive rmode := MGet | MList | MCount.
+Inductive revsel := RvPinned     (* a revision below the node's current read revision *)
+                  | RvCurrent    (* the node's current read revision *)
+                  | RvFuture     (* above it *)
+                  | RvMagic.     (* 1888, with the node's read revision above 1888 *)
+
 Inductive kind :=
 (* etcd front-end *)
 | ERangeGet | ERangeList | ERangeCount | ERangePartition
+| ERangeAt (m : rmode) (v : revsel)
 | ETxnCreate | ETxnDelete | ETxnUpdate | ETxnCompact | ETxnInvalid
 | EWatchPure               (* StartRevision >= 0, key starts with "/" *)
 | EWatchStream             (* StartRevision < 0: range stream *)
@@ -70,6 +79,8 @@ Definition roles_effects (k : kind) (r : role) (proxy : bool) (l : reach) : effe
   match k with
   (* kv.go:37-76: every Range mode syncs first and returns the error *)
   | ERangeGet | ERangeList | ERangeCount | ERangePartition => read_effects r l
+  (* whatever Revision says: the sync is unconditional *)
+  | ERangeAt _ _ => read_effects r l
   (* kv.go:78-142: the role check precedes the recognisers *)
   | ETxnCreate | ETxnDelete | ETxnUpdate =>
       match r with
@@ -137,6 +148,10 @@ Definition overlap_model (r : N) (l : reach) : rclass * list N * N :=
   | SyncSkip => (RespOk, [r], r)
   end.
 
+(* a follower that has already served a read at r1; the leader moves on to r2; a second read of the given kind:
+   it syncs again (sets r2) and is served at r2 *)
+Definition follow_model (r1 r2 : N) : list N * N := ([r1; r2], r2).
+
 (* the outcome vocabulary of DESIGN.md, derived from the effects *)
 Inductive outcome :=
 | RejectUnavailable | Forward | ApplyLocal | WatchLocal | ServeLocal | ServeLocalAt (rev : N) | Error | Stub | Nothing.
@@ -155,13 +170,17 @@ Definition outcome_of (e : effects) : outcome :=
 
 Definition is_read (k : kind) : bool :=
   match k with
-  | ERangeGet | ERangeList | ERangeCount | ERangePartition | EWatchStream
+  | ERangeGet | ERangeList | ERangeCount | ERangePartition | ERangeAt _ _ | EWatchStream
   | BGet | BRange | BCount | BListPartition | BRangeStream => true
   | _ => false
   end.
 
 Definition all_kinds : list kind :=
-  [ERangeGet; ERangeList; ERangeCount; ERangePartition; ETxnCreate; ETxnDelete; ETxnUpdate; ETxnCompact; ETxnInvalid;
+  [ERangeGet; ERangeList; ERangeCount; ERangePartition;
+   ERangeAt MGet RvPinned; ERangeAt MGet RvCurrent; ERangeAt MGet RvFuture; ERangeAt MGet RvMagic;
+   ERangeAt MList RvPinned; ERangeAt MList RvCurrent; ERangeAt MList RvFuture; ERangeAt MList RvMagic;
+   ERangeAt MCount RvPinned; ERangeAt MCount RvCurrent; ERangeAt MCount RvFuture; ERangeAt MCount RvMagic;
+   ETxnCreate; ETxnDelete; ETxnUpdate; ETxnCompact; ETxnInvalid;
    EWatchPure; EWatchStream; EWatchInvalidKey; ECompact; EPut; EDeleteRange; ELeaseGrant; ELeaseRevoke; EMemberList;
    BCreate; BUpdate; BDelete; BCompact; BGet; BRange; BCount; BListPartition; BRangeStream; BWatch;
    CompactLoopTick; StatusHandler].
